@@ -39,6 +39,7 @@ impl UiObject {
             if is_action_separator(ctx, obj_node, diagnostics) {
                 UiObject::ActionSeparator
             } else {
+                reject_reserved_action_name(obj_node, diagnostics);
                 UiObject::Action(Action::new(
                     &ctx.make_object_context(obj_node),
                     obj_node.name(),
@@ -49,6 +50,7 @@ impl UiObject {
         } else if cls.is_derived_from(&ctx.classes.layout) {
             UiObject::Layout(Layout::build(ctx, obj_node, diagnostics))
         } else if cls.is_derived_from(&ctx.classes.menu) {
+            reject_reserved_action_name(obj_node, diagnostics);
             UiObject::Menu(Widget::build(ctx, obj_node, diagnostics))
         } else if cls.is_derived_from(&ctx.classes.widget) {
             UiObject::Widget(Widget::build(ctx, obj_node, diagnostics))
@@ -102,6 +104,21 @@ fn is_action_separator(
             .unwrap_or(false)
     } else {
         false
+    }
+}
+
+/// Reports an action or menu which would be taken as a separator if added by name.
+fn reject_reserved_action_name(obj_node: ObjectNode, diagnostics: &mut Diagnostics) {
+    if obj_node.name() == ACTION_SEPARATOR_NAME {
+        let node = obj_node
+            .obj()
+            .object_id()
+            .map(|id| id.node())
+            .unwrap_or_else(|| obj_node.obj().node());
+        diagnostics.push(Diagnostic::error(
+            node.byte_range(),
+            format!("object name '{ACTION_SEPARATOR_NAME}' is reserved for action separator"),
+        ));
     }
 }
 
